@@ -199,6 +199,10 @@ func (da *doubleArray) lookup(path string, params []Param, idx int) (*node, []Pa
 			indices = append(indices, (uint64(i)<<indexOffset)|(uint64(idx)&indexMask))
 		}
 		c := path[i]
+		if c == ParamCharacter || c == WildcardCharacter || c == TerminationCharacter {
+			// reserved bytes of the looked up path never match the special edges of the trie
+			goto BACKTRACKING
+		}
 		if idx = nextIndex(da.bc[idx].Base(), c); idx >= len(da.bc) || da.bc[idx].Check() != c {
 			goto BACKTRACKING
 		}
@@ -216,7 +220,7 @@ BACKTRACKING:
 				break
 			}
 
-			next := NextSeparator(path, i)
+			next := nextSegment(path, i)
 			nextParams := params
 			nextParams = append(nextParams, Param{Value: path[i:next]})
 			if nd, nextNextParams, found := da.lookup(path[next:], nextParams, nextIdx); found {
@@ -232,6 +236,14 @@ BACKTRACKING:
 		}
 	}
 	return nil, nil, false
+}
+
+// nextSegment returns the index of the next path separator in a looked up path.
+func nextSegment(path string, start int) int {
+	for start < len(path) && path[start] != SeparatorCharacter {
+		start++
+	}
+	return start
 }
 
 // build builds double-array from records.
